@@ -1377,3 +1377,84 @@ func RuleMB1(c *Ctx) {
 		}
 	}
 }
+
+// ---------------------------------------------------------------- JM1
+
+// RuleJM1: the document handed out is the encoder's output. A function that returns
+// ([]byte, error) and gets the bytes from encoding/json (Marshal, MarshalIndent) returns
+// them as they are: the call itself, the variable that received its first result, or a
+// conversion-free alias of it. Text substitutions on encoded JSON work on bytes, not on
+// tokens: undoing `&` also rewrites the escaped backslash of `\\u0026` and the result
+// is no longer JSON, returned with a nil error.
+func RuleJM1(c *Ctx) {
+	sc := c.Run.Begin("JM1", "every function returning ([]byte, error) that obtains the bytes from encoding/json returns them untouched", 2)
+	defer sc.End()
+	n := 0
+	c.P.Funcs(func(pk *pkgT, fd *ast.FuncDecl) {
+		info := pk.TypesInfo
+		self, _ := info.Defs[fd.Name].(*types.Func)
+		if self == nil || strings.HasPrefix(fd.Name.Name, "Marshal") || strings.HasPrefix(fd.Name.Name, "marshal") {
+			return // a marshaller composes its output from encoded parts by design
+		}
+		sig := self.Type().(*types.Signature)
+		if sig.Results().Len() != 2 || !isErrorType(sig.Results().At(1).Type()) {
+			return
+		}
+		if sl, ok := sig.Results().At(0).Type().Underlying().(*types.Slice); !ok || !isByte(sl.Elem()) {
+			return
+		}
+		isJSON := func(e ast.Expr) bool {
+			call, ok := ast.Unparen(e).(*ast.CallExpr)
+			if !ok {
+				return false
+			}
+			g := Callee(info, call)
+			return g != nil && g.Pkg() != nil && g.Pkg().Path() == "encoding/json" && strings.HasPrefix(g.Name(), "Marshal")
+		}
+		uses := false
+		ast.Inspect(fd.Body, func(x ast.Node) bool {
+			if e, ok := x.(ast.Expr); ok && isJSON(e) {
+				uses = true
+			}
+			return true
+		})
+		if !uses {
+			return
+		}
+		n++
+		cf := c.CFG(pk, fd.Body)
+		bad := ""
+		inspectNoLit(fd.Body, func(x ast.Node) bool {
+			ret, ok := x.(*ast.ReturnStmt)
+			if !ok || len(ret.Results) == 0 {
+				return true
+			}
+			if len(ret.Results) == 1 {
+				if !isJSON(ret.Results[0]) {
+					bad = types.ExprString(ret.Results[0])
+				}
+				return true
+			}
+			r := ast.Unparen(cf.Resolve(ret.Results[0]))
+			if tv, has := info.Types[r]; has && tv.IsNil() {
+				return true
+			}
+			if id, ok := r.(*ast.Ident); ok {
+				if rhs, idx, ok := cf.TupleDefOf(info.ObjectOf(id)); ok && idx == 0 && isJSON(rhs) {
+					return true
+				}
+			}
+			bad = types.ExprString(ret.Results[0])
+			return true
+		})
+		key := c.P.DeclName(fd)
+		if bad == "" {
+			sc.Holds(key, c.P.Pos(fd.Pos()), "returns the encoder's bytes as they are")
+		} else {
+			sc.Violation(key, c.P.Pos(fd.Pos()), "the bytes obtained from encoding/json are returned as "+bad+", not as they are: a substitution on encoded text can turn valid JSON into invalid JSON (an escaped backslash before the rewritten sequence) with a nil error")
+		}
+	})
+	if n == 0 {
+		sc.Undecided("sites", "-", "no function returning the bytes of encoding/json found")
+	}
+}
